@@ -30,6 +30,8 @@ type aliasTable struct {
 	fieldRev map[string]string // canonicalType.canonicalField -> actual field name
 	funcFwd  map[string]string // actual function name -> canonical function name
 	globRev  map[string]string // canonical package variable -> actual name
+	movedFwd map[string]string // "pkg.NewStruct.field" -> "pkg.OldOwner.oldField" (field regrouped into a nested struct)
+	movedRev map[string][2]string // "pkg.OldOwner.oldField" -> {"pkg.NewStruct", "field"}
 	notes    []string
 }
 
@@ -43,7 +45,7 @@ func rawTypeStr(t types.Type) string { return shortenRaw(types.TypeString(t, nil
 
 // BuildAliases compares the loaded program with the reference shapes.
 func (p *Prog) BuildAliases() {
-	at := &aliasTable{typeFwd: map[string]string{}, typeRev: map[string]string{}, fieldFwd: map[string]string{}, fieldRev: map[string]string{}, funcFwd: map[string]string{}, globRev: map[string]string{}}
+	at := &aliasTable{typeFwd: map[string]string{}, typeRev: map[string]string{}, fieldFwd: map[string]string{}, fieldRev: map[string]string{}, funcFwd: map[string]string{}, globRev: map[string]string{}, movedFwd: map[string]string{}, movedRev: map[string][2]string{}}
 	curAliases = nil
 	type actual struct {
 		name   string
@@ -174,6 +176,93 @@ func (p *Prog) BuildAliases() {
 					at.fieldRev[n+"."+rf.Name] = nf.Name
 					at.notes = append(at.notes, "field "+an+"."+nf.Name+" is treated as the renamed "+n+"."+rf.Name)
 					break
+				}
+			}
+		}
+	}
+	// 2b. fields regrouped into a nested struct: a reference struct lost fields
+	// and gained ONE field (named or embedded, by value or pointer) of a struct
+	// type that is new in the module; a lost field of type X is the new
+	// struct's field of that type (same name preferred, else the only one of
+	// that type). A new struct used for several fields of the owner is
+	// ambiguous (include/exclude twins) and left alone.
+	for _, n := range names {
+		ref := refStructs[n]
+		an := n
+		if r, ok := at.typeRev[n]; ok {
+			an = r
+		}
+		a, ok := act[an]
+		if !ok {
+			continue
+		}
+		have := map[string]string{}
+		for _, f := range a.fields {
+			have[canonFieldNameIn(at, n, f.Name)] = canonT(f.Type)
+		}
+		var lost []refField
+		for _, rf := range ref {
+			// gone, or still there under its name but now a wrapper type
+			// (`files map[..]..` -> `files fileTable{mu, m map[..]..}`)
+			if t, ok := have[rf.Name]; !ok || t != rf.Type {
+				lost = append(lost, rf)
+			}
+		}
+		if len(lost) == 0 {
+			continue
+		}
+		useCount := map[string]int{}
+		for _, f := range a.fields {
+			t := strings.TrimPrefix(f.Type, "*")
+			if _, isNew := act[t]; isNew {
+				if _, old := refStructs[t]; !old {
+					useCount[t]++
+				}
+			}
+		}
+		for _, f := range a.fields {
+			t := strings.TrimPrefix(f.Type, "*")
+			inner, isNew := act[t]
+			if !isNew || useCount[t] != 1 {
+				continue
+			}
+			if _, old := refStructs[t]; old {
+				continue
+			}
+			taken := map[string]bool{}
+			for _, lf := range lost {
+				if _, done := at.movedRev[n+"."+lf.Name]; done {
+					continue
+				}
+				pick := ""
+				for _, inf := range inner.fields {
+					if !taken[inf.Name] && canonT(inf.Type) == lf.Type && inf.Name == lf.Name {
+						pick = inf.Name
+					}
+				}
+				if pick == "" {
+					cnt := 0
+					for _, inf := range inner.fields {
+						if !taken[inf.Name] && canonT(inf.Type) == lf.Type {
+							pick = inf.Name
+							cnt++
+						}
+					}
+					lostSame := 0
+					for _, l2 := range lost {
+						if l2.Type == lf.Type {
+							lostSame++
+						}
+					}
+					if cnt != 1 || lostSame != 1 {
+						pick = ""
+					}
+				}
+				if pick != "" {
+					taken[pick] = true
+					at.movedFwd[t+"."+pick] = n + "." + lf.Name
+					at.movedRev[n+"."+lf.Name] = [2]string{t, pick}
+					at.notes = append(at.notes, "field "+t+"."+pick+" (nested in "+an+"."+f.Name+") is treated as the regrouped "+n+"."+lf.Name)
 				}
 			}
 		}
@@ -573,4 +662,20 @@ func refCalleesFor(goos, fn string) []string {
 		}
 	}
 	return nil
+}
+
+func canonFieldNameIn(at *aliasTable, owner, field string) string {
+	if c, ok := at.fieldFwd[owner+"."+field]; ok {
+		return c
+	}
+	return field
+}
+
+// movedField maps "pkg.NewStruct.field" to the canonical "pkg.Owner.field" it
+// was regrouped from ("" when it is not a regrouped field).
+func movedField(full string) string {
+	if curAliases == nil {
+		return ""
+	}
+	return curAliases.movedFwd[full]
 }
